@@ -4,7 +4,7 @@
 //! second, longer wait before it is reported.
 //!
 //! stress --scenario <a,b,…> --seconds <n> --seed <n> --report <file>
-//! scenarios: hammer (C01 C02 C03 C06), askjoin (C03), late (C01 C10), blocking (C17 + C01 C02 C03 C13), ids (C11), idlewin (C08), lazyfut (C16)
+//! scenarios: hammer (C01 C02 C03 C06), askjoin (C03), late (C01 C10), blocking (C17 + C01 C02 C03 C13), ids (C11), idlewin (C08), lazyfut (C16), refs (C11 C07)
 
 use rsactor::{spawn, spawn_with_mailbox_capacity, Actor, ActorRef, ActorWeak, Message};
 use std::sync::atomic::{AtomicBool, AtomicU64, Ordering::SeqCst};
@@ -686,6 +686,44 @@ fn blocking(rep: &mut Report) {
             other => rep.v("C17", format!("blocking_*(…, Some(timeout)) inside a runtime context: {other:?}")),
         }
     }
+    // (c2) from inside a single-threaded runtime that cannot make progress while the caller blocks: the call
+    //      still returns by its deadline (tell: the mailbox has room; ask: the actor cannot run, so Timeout)
+    {
+        note("blocking (c2): blocking_tell / blocking_ask with a timeout called directly from async code on a current_thread runtime".into());
+        let (tx, rx) = std::sync::mpsc::channel();
+        std::thread::spawn(move || {
+            let rt1 = tokio::runtime::Builder::new_current_thread().enable_time().build().unwrap();
+            let out = rt1.block_on(async {
+                let log = Arc::new(Mutex::new(vec![]));
+                let (r, _jh) = spawn_with_mailbox_capacity::<B>((log, 0), 4);
+                let t0 = Instant::now();
+                let a = std::panic::catch_unwind(std::panic::AssertUnwindSafe(|| r.blocking_tell(W(1), Some(Duration::from_millis(500))).is_ok()));
+                let ta = t0.elapsed();
+                let t1 = Instant::now();
+                let b = std::panic::catch_unwind(std::panic::AssertUnwindSafe(|| match r.blocking_ask(W(2), Some(Duration::from_millis(300))) {
+                    Ok(_) => "ok",
+                    Err(rsactor::Error::Timeout { .. }) => "timeout",
+                    Err(_) => "other",
+                }));
+                let tb = t1.elapsed();
+                let _ = r.kill();
+                (a, ta, b, tb)
+            });
+            let _ = tx.send(out);
+        });
+        calls += 2;
+        match rx.recv_timeout(Duration::from_secs(15)) {
+            Ok((a, ta, b, tb)) => {
+                if !matches!(a, Ok(true)) || ta > Duration::from_millis(700) {
+                    rep.v("C17", format!("blocking_tell(.., Some(500 ms)) from async code on a current_thread runtime with a free mailbox: {a:?} after {ta:?} (expected Ok well within the deadline)"));
+                }
+                if !matches!(b, Ok("timeout") | Ok("ok")) || tb > Duration::from_millis(600) {
+                    rep.v("C17 C10", format!("blocking_ask(.., Some(300 ms)) from async code on a current_thread runtime: {b:?} after {tb:?} (expected a result by the deadline)"));
+                }
+            }
+            Err(_) => rep.v("C17 C10", "blocking_tell / blocking_ask with a timeout called directly from async code on a current_thread runtime did not return within 15 s (deadlines 500 ms and 300 ms)".into()),
+        }
+    }
     rep.s("blocking", format!("calls={calls}"));
 }
 
@@ -1026,6 +1064,61 @@ fn kind(e: &rsactor::Error) -> &'static str {
     }
 }
 
+// ------------------------------------------------------------------------------------------------ refs
+/// Sequences of handle operations with no yield in between (the paused correspondence lets the actor run to
+/// quiescence after every operation, so it never sees "the marker is queued but not yet dequeued").
+fn refs(rep: &mut Report) {
+    use rsactor::{ActorControl, WeakActorControl};
+    let rt = tokio::runtime::Builder::new_current_thread().enable_time().build().unwrap();
+    let mut cases = 0u64;
+    rt.block_on(async {
+        for what in ["stop", "tell", "kill"] {
+            for erased in [false, true] {
+                cases += 1;
+                note(format!("refs: {what} on the last strong handle, drop it, upgrade a weak one at once (erased={erased})"));
+                let log = Arc::new(Mutex::new(vec![]));
+                let (r, jh) = spawn_with_mailbox_capacity::<B>((log.clone(), 0), 4);
+                tokio::task::yield_now().await; // on_start has run
+                let weak = r.downgrade();
+                let wc: Box<dyn WeakActorControl> = ActorControl::downgrade(&r);
+                match what {
+                    "stop" => { let _ = r.stop().await; }
+                    "tell" => { let _ = r.tell(W(5)).await; }
+                    _ => { let _ = r.kill(); }
+                }
+                drop(r);
+                // nothing has been polled since: the queued marker / envelope (or, for kill, nothing) is all that refers to the actor
+                let (up, alive) = if erased { (wc.upgrade().is_some(), wc.is_alive()) } else { (weak.upgrade().is_some(), weak.is_alive()) };
+                let expect = what != "kill";
+                if what != "kill" && (!up || !alive) {
+                    rep.v("C11 C07", format!("after {what}() on the last strong handle and its drop, with the {} still queued, upgrade() = {up} and is_alive() = {alive} on a weak handle (erased={erased}): a queued item refers to the actor, so both must be true", if what == "stop" { "stop marker" } else { "message" }));
+                }
+                let _ = expect;
+                let res = tokio::time::timeout(Duration::from_secs(10), jh).await;
+                match res {
+                    Ok(Ok(r)) => {
+                        if what == "kill" && !r.was_killed() {
+                            rep.v("C06 C05", "kill() then drop of the last reference: the result says the actor was not killed".into());
+                        }
+                        if what != "kill" && r.was_killed() {
+                            rep.v("C05 C04", format!("{what}() then drop of the last reference: the result says the actor was killed"));
+                        }
+                        if what == "tell" && !log.lock().unwrap().contains(&5) {
+                            rep.v("C01 C07", "a message accepted before the last reference was dropped was never handled".into());
+                        }
+                    }
+                    Ok(Err(e)) => rep.v("C07", format!("after {what}() and the drop of the last reference the actor's task failed: {e}")),
+                    Err(_) => rep.v("C07", format!("after {what}() and the drop of the last reference the actor did not end within 10 s")),
+                }
+                if weak.upgrade().is_some() {
+                    rep.v("C11", "upgrade() succeeded after the actor had ended and no strong reference was left".into());
+                }
+            }
+        }
+    });
+    rep.s("refs", format!("cases={cases}"));
+}
+
 fn main() {
     harness::quiet_panics();
     let args: Vec<String> = std::env::args().collect();
@@ -1055,6 +1148,7 @@ fn main() {
             "ids" => ("C11", 120),
             "idlewin" => ("C08 C03", 900),
             "lazyfut" => ("C16", 120),
+            "refs" => ("C11 C07", 120),
             o => panic!("unknown scenario {o}"),
         };
         note(format!("{s}: starting"));
@@ -1069,6 +1163,7 @@ fn main() {
                 "blocking" => blocking(&mut r),
                 "ids" => ids(&mut r),
                 "idlewin" => idlewin(&mut r),
+                "refs" => refs(&mut r),
                 _ => lazyfut(&mut r),
             }
             let _ = tx.send(r);
